@@ -314,11 +314,28 @@ func c06ChecksigCases(yield func(c06Case), thorough bool) {
 // genesis they are parsed as opcodes).
 func c06ReturnTailCases(yield func(c06Case), thorough bool) {
 	k0 := keyOf(0)
-	tails := [][]byte{{}, {0x11}, {0x11, 0x22}, {0x11, 0x22, 0x33}, {0x02, 0x22, 0x33, 0x44}, {0x4c}, {0xac, 0x51}}
+	tails := [][]byte{{}, {0x11}, {0x11, 0x22}, {0x11, 0x22, 0x33}, {0x02, 0x22, 0x33, 0x44}, {0x4c}, {0xac, 0x51}, {0x01}, {0x00}, {0x51}, {0x4f}, {0x01, 0x01}, {0x6a}, {0xab}}
 	for ti, tail := range tails {
-		for _, form := range []string{"CHECKSIGVERIFY 1 RETURN", "CHECKSIG RETURN", "1of1 CHECKMULTISIGVERIFY 1 RETURN"} {
+		for _, form := range []string{"CHECKSIGVERIFY 1 RETURN", "CHECKSIG RETURN", "1of1 CHECKMULTISIGVERIFY 1 RETURN", "unlock ends in RETURN | CHECKSIG", "unlock ends in RETURN | 1of1 CHECKMULTISIG",
+			"CHECKSIGVERIFY CODESEPARATOR 1", "1of1 CHECKMULTISIGVERIFY CODESEPARATOR 1"} {
 			var lock []byte
+			unlockTail := []byte(nil)
+			if form[len(form)-15:] == "CODESEPARATOR 1" && ti > 0 {
+				continue // these two do not depend on the tail
+			}
 			switch form {
+			case "CHECKSIGVERIFY CODESEPARATOR 1":
+				// separators AFTER the check stay in the script code: removed from it by the
+				// original algorithm, signed as they stand by the FORKID digest
+				lock = bytesJoin(minimalPush(k0.comp), []byte{0xad, 0xab, 0x51, 0xab})
+			case "1of1 CHECKMULTISIGVERIFY CODESEPARATOR 1":
+				lock = bytesJoin([]byte{0x51}, minimalPush(k0.comp), []byte{0x51, 0xaf, 0xab, 0x51, 0xab})
+			case "unlock ends in RETURN | CHECKSIG":
+				lock = bytesJoin(minimalPush(k0.comp), []byte{0xac})
+				unlockTail = append([]byte{0x6a}, tail...)
+			case "unlock ends in RETURN | 1of1 CHECKMULTISIG":
+				lock = bytesJoin([]byte{0x51}, minimalPush(k0.comp), []byte{0x51, 0xae})
+				unlockTail = append([]byte{0x6a}, tail...)
 			case "CHECKSIGVERIFY 1 RETURN":
 				lock = bytesJoin(minimalPush(k0.comp), []byte{0xad, 0x51, 0x6a}, tail)
 			case "CHECKSIG RETURN":
@@ -333,10 +350,10 @@ func c06ReturnTailCases(yield func(c06Case), thorough bool) {
 							f |= fGenesis
 						}
 						unlockOf := func(sig []byte) []byte {
-							if form[0] == '1' {
-								return pushAll([]byte{}, sig)
+							if form[0] == '1' || form == "unlock ends in RETURN | 1of1 CHECKMULTISIG" {
+								return bytesJoin(pushAll([]byte{}, sig), unlockTail)
 							}
-							return pushAll(sig)
+							return bytesJoin(pushAll(sig), unlockTail)
 						}
 						ph := append(bytes.Repeat([]byte{0x01}, 8), ht)
 						base := scriptCase{Unlock: unlockOf(ph), Lock: lock, Flags: f}
@@ -505,7 +522,7 @@ func c06MultisigCases(yield func(c06Case), thorough bool) {
 
 func init() {
 	p := register(&Prop{ID: "C06", Level: "exploration",
-		Rule: "exhaustive product with real ECDSA signatures, every case executed in lockstep against the reference model (CHECKSIG/CHECKMULTISIG written after the node's interpreter, certified on the signature vectors of script_tests.json; digests certified on the sighash vectors): CHECKSIG family: 8 locking-script forms (CHECKSIG, NOT, CHECKSIGVERIFY, OP_CODESEPARATOR before the key / before the opcode / unexecuted / later in the script, P2PKH) x 5 key encodings (compressed, uncompressed, hybrid, truncated, empty) x 17 hash types (12 standard, 5 undefined) x 9 signature kinds (valid, over another tx, by another key, over the other digest algorithm, empty, hash-type byte only, high-S, DER-padded, wrong DER length) x ALL 64 subsets of {STRICTENC, DERSIG, LOW_S, NULLDUMMY, NULLFAIL, SIGHASH_FORKID} x both eras x tx shapes (1 in/1 out, no outputs; thorough: 2 inputs); signature-in-script (exact push and substring); signature checks in scripts that continue after a top-level OP_RETURN with 0..4 raw bytes (script code with a data tail); for CHECKSIG and P2PKH also with the transaction's checked input already recording ANOTHER spent output (other value and script, as left by FromUTXOs or an earlier Execute): a valid signature, and one made for the recorded value instead of the spent one. CHECKMULTISIG family: every m-of-n with 0<=m<=n<=3, every m-tuple over the slot alphabet {valid by key j for every j, empty, type-only, other tx, high-S, a single byte that occurs inside a public key} (hence every order), dummy {empty, 01}, key mutations, 3 opcode forms, uniform and mixed per-signature hash types, 2/5 hash types, 64 flag subsets x both eras. Oracle: verdict and every stack snapshot equal the reference. distinct_nontrivial = distinct (script pair, flags) executions",
+		Rule: "exhaustive product with real ECDSA signatures, every case executed in lockstep against the reference model (CHECKSIG/CHECKMULTISIG written after the node's interpreter, certified on the signature vectors of script_tests.json; digests certified on the sighash vectors): CHECKSIG family: 8 locking-script forms (CHECKSIG, NOT, CHECKSIGVERIFY, OP_CODESEPARATOR before the key / before the opcode / unexecuted / later in the script, P2PKH) x 5 key encodings (compressed, uncompressed, hybrid, truncated, empty) x 17 hash types (12 standard, 5 undefined) x 9 signature kinds (valid, over another tx, by another key, over the other digest algorithm, empty, hash-type byte only, high-S, DER-padded, wrong DER length) x ALL 64 subsets of {STRICTENC, DERSIG, LOW_S, NULLDUMMY, NULLFAIL, SIGHASH_FORKID} x both eras x tx shapes (1 in/1 out, no outputs; thorough: 2 inputs); signature-in-script (exact push and substring); signature checks in scripts that continue after a top-level OP_RETURN with 0..4 raw bytes (script code with a data tail), and signature checks reached after an UNLOCKING script that ends through a top-level OP_RETURN; for CHECKSIG and P2PKH also with the transaction's checked input already recording ANOTHER spent output (other value and script, as left by FromUTXOs or an earlier Execute): a valid signature, and one made for the recorded value instead of the spent one. CHECKMULTISIG family: every m-of-n with 0<=m<=n<=3, every m-tuple over the slot alphabet {valid by key j for every j, empty, type-only, other tx, high-S, a single byte that occurs inside a public key} (hence every order), dummy {empty, 01}, key mutations, 3 opcode forms, uniform and mixed per-signature hash types, 2/5 hash types, 64 flag subsets x both eras. Oracle: verdict and every stack snapshot equal the reference. distinct_nontrivial = distinct (script pair, flags) executions",
 	})
 	sp := NewSpace(p, "sigops", c06Check)
 	p.Run = func(r *rep.Run, thorough bool) {
